@@ -173,6 +173,9 @@ func (s *KVServer) Txn(ctx context.Context, req *regattapb.TxnRequest) (*regatta
 		if errors.Is(err, serrors.ErrTableNotFound) {
 			return nil, status.Error(codes.NotFound, "table not found")
 		}
+		if errors.Is(err, serrors.ErrEmptyKey) || errors.Is(err, serrors.ErrInvalidOperation) {
+			return nil, status.Error(codes.InvalidArgument, err.Error())
+		}
 		if serrors.IsSafeToRetry(err) {
 			return nil, status.Error(codes.Unavailable, err.Error())
 		}
